@@ -6,9 +6,9 @@ pid = sys.argv[1]
 rnd = sys.argv[2] if len(sys.argv) > 2 else "1"
 wt = f"/tmp/wt-{pid}" if rnd == "1" else f"/tmp/w{rnd}-{pid}"
 src = f"{wt}/mutants"
-tag = "m" if rnd == "1" else {"2": "n", "3": "p", "4": "q"}[rnd]
+tag = "m" if rnd == "1" else {"2": "n", "3": "p", "4": "q", "5": "r"}[rnd]
 out = []
-for k in (1, 2, 3):
+for k in (1, 2, 3, 4, 5, 6):
     if not os.path.exists(f"{src}/m{k}.diff"):
         continue
     demo_text = open(f"{src}/m{k}_demo.py").read()
